@@ -1,4 +1,4 @@
-(* C03 -- a search answers with a legal move.  PARTIAL.
+(* C03 -- a search answers with a legal move.
    Proved on the model: the answer of `root` is the move of the last reported iteration; whenever the root node's
    move loop ends with a best move, that move is recorded and is legal in the root position; the root is never cut
    off by the null move; a table entry can only re-order the root's moves (ordering is a permutation).
@@ -7,7 +7,7 @@
    satisfying the executable invariant `invr_b`; the tie to the binary is the correspondence run over limits, histories,
    clocks and pre-filled tables. *)
 From Coq Require Import NArith ZArith List Bool Permutation.
-From Rawr Require Import Consts Bits Magic Position MoveGen MakeMove Eval TT Search MakeStages SearchFacts SearchFacts2 Closure MenCount EpRetro SearchBound GenLegal.
+From Rawr Require Import Consts Bits Magic Position MoveGen MakeMove Eval TT Search MakeStages SearchFacts SearchFacts2 Closure MenCount EpRetro SearchBound GenLegal SearchTotal SearchFinal.
 Import ListNotations.
 Local Open Scope Z_scope.
 
@@ -47,6 +47,21 @@ Theorem C03_search_answers_with_a_legal_move : forall (stopf : Stats -> bool) fu
 Proof. exact search_answers_with_a_legal_move. Qed.
 Theorem C03_executable_invariant_sound : forall p, invr_b p = true -> InvSR p.
 Proof. exact invr_b_sound. Qed.
+
+(* ---- without "modulo fuel": the search of the model TERMINATES (SearchTotal.v: every recursive call strictly decreases
+   101 * (potential: 8 per man + ranks the pawns can still advance) + 101 * depth + (100 - half-move clock) -- a capture or pawn
+   move lowers the potential, a quiet move raises the clock, a non-root node with clock 100 returns at once, depth 0 goes to the
+   quiescence search which a capture-count bounds) and its result does not depend on the fuel beyond ROOT_FUEL = 61442
+   (FuelFacts.v); so for every limit, history and admissible table with at least one slot the search DOES return a result, the
+   same for every sufficient fuel, and its answer is a legal move whenever the root has one *)
+Theorem C03_search_always_answers_with_a_legal_move : forall (stopf : Stats -> bool) p hist tt,
+  InvSR p -> TBnd tt -> t_len tt <> 0%N -> 0 <= halfmoves p -> legal_moves p <> [] ->
+  exists r, (forall fuel, (ROOT_FUEL <= fuel)%nat -> root stopf fuel p hist tt = Some r)
+            /\ exists m, rr_best r = Some m /\ In m (legal_moves p).
+Proof. exact search_always_answers_with_a_legal_move. Qed.
+Theorem C03_search_terminates : forall (stopf : Stats -> bool) p hist tt fuel,
+  InvSR p -> t_len tt <> 0%N -> 0 <= halfmoves p -> 61442 <= Z.of_nat fuel -> root stopf fuel p hist tt <> None.
+Proof. exact root_total_const. Qed.
 Theorem C03_tables_the_engine_makes_satisfy_the_invariant : forall mb t,
   TBnd (tt_new mb) /\ TBnd (tt_clear t) /\ (TBnd t -> TBnd (tt_resize t mb)).
 Proof. intros mb t. split; [apply TBnd_new|split; [apply TBnd_clear|apply TBnd_resize]]. Qed.
@@ -60,3 +75,5 @@ Print Assumptions C03_ordering_is_permutation.
 Print Assumptions C03_search_answers_with_a_legal_move.
 Print Assumptions C03_tables_the_engine_makes_satisfy_the_invariant.
 Print Assumptions C03_executable_invariant_sound.
+Print Assumptions C03_search_always_answers_with_a_legal_move.
+Print Assumptions C03_search_terminates.
